@@ -175,6 +175,7 @@ def ucall(f, args, ret=None):
     for n in _bound_names(f["body"], set()):
         m[n] = ref(f"{n}_c{_SITE[0]}")
     return {"k": "ucall", "f": f["name"], "args": args, "ret": ret or "", "aw": f["async"], "body": _rename(f["body"], m)}
+def always_(n, e): return {"k": "always", "n": n, "e": e}      # n = cohdl.always(e)
 def local(n, ty, init, delayed=False): return {"k": "local", "n": n, "ty": ty, "init": init, "delayed": 1 if delayed else 0}
 def waitfor(n, allow_zero=False, via="std"):
     return {"k": "waitfor", "n": n if isinstance(n, dict) else {"k": "int", "v": n}, "allow_zero": 1 if allow_zero else 0, "via": via}
@@ -315,6 +316,8 @@ class Printer:
                 out.append(f'{pad}std.comment("{s["text"]}")')
             elif k == "bind":
                 out.append(f"{pad}{s['n']} = {self.expr(s['e'])}")
+            elif k == "always":
+                out.append(f"{pad}{s['n']} = cohdl.always({self.expr(s['e'])})")
             elif k == "if":
                 out.append(f"{pad}if {self.cond(s['c'])}:")
                 self.stmts(s["th"], ind + 1, out)
@@ -327,7 +330,8 @@ class Printer:
                     out.append(f"{pad}await cohdl.true")
                 elif c["k"] == "false":
                     out.append(f"{pad}await cohdl.false")
-                elif c["k"] == "ref":
+                elif c["k"] == "ref" and (c["n"] in self.portnames or c["n"] in {o["n"] for o in self.ent["objs"]}
+                                          or c["n"] in {p for f in self.ent.get("funcs", []) for p in f["params"]}):
                     out.append(f"{pad}await {self.expr(c)}")
                 else:
                     out.append(f"{pad}await cohdl.expr({self.expr(c)})")
